@@ -3,7 +3,7 @@ EXTENDS WfFfi, Json
 (* failure texts are garbage tokens appended to a filter; the engine echoes the offending line in its   *)
 (* error message, so a NUL byte in the text reaches the last-error string and must be substituted       *)
 (* offending tails appended to "i == 1 ": plain, NUL inside, NUL alone, NUL first on its line (the line is one *)
-(* formatting piece of the message), NUL last                                                                 *)
-TextsDef == {<<101>>, <<101, 0, 102>>, <<0>>, <<124, 124, 10, 0, 120>>, <<120, 0>>}
+(* formatting piece of the message), NUL last, two NULs in one line                                                                 *)
+TextsDef == {<<101>>, <<101, 0, 102>>, <<0>>, <<124, 124, 10, 0, 120>>, <<120, 0>>, <<120, 0, 121, 0, 122>>}
 Emit == (calls = MaxCalls) => PrintT(<<"REPLAY", ToJson([ev |-> "ffiseq", hist |-> hist])>>)
 =============================================================================
